@@ -10,8 +10,9 @@ namespace Dflt
 set_option linter.unusedVariables false
 
 theorem dflt_fields (src : Nat → Src) (s : St) (f : Nat) :
-    (dflt src s f).2.holder = s.holder ∧ (dflt src s f).2.isset = s.isset ∧ (dflt src s f).2.heap = s.heap := by
-  unfold dflt; cases src f <;> exact ⟨rfl, rfl, rfl⟩
+    (dflt src s f).2.holder = s.holder ∧ (dflt src s f).2.isset = s.isset ∧
+    (∀ c, c ≠ s.next → (dflt src s f).2.heap c = s.heap c) := by
+  unfold dflt; cases src f <;> refine ⟨rfl, rfl, ?_⟩ <;> intro c hc <;> simp [hc]
 
 /-- **A feature that has no holder yet and is not in `_isset` reads as its default and stays unset.** -/
 theorem C15_default (src : Nat → Src) (s : St) (o f : Nat) (hh : s.holder o f = Option.none)
@@ -46,7 +47,8 @@ theorem C15_never_set (src : Nat → Src) (n : Nat) (ops : List Op) (o f : Nat)
 
 /-- **Reading is free**: it changes neither `_isset` nor what `save()` would write, for any object and feature; and a
 second read returns the same value. -/
-theorem C15_read_pure (src : Nat → Src) (s : St) (o f : Nat) :
+theorem C15_read_pure (src : Nat → Src) (s : St) (o f : Nat)
+    (hal : ∀ o f c, s.holder o f = some (.cell c) → c < s.next) :
     (read src s o f).2.isset = s.isset ∧
     (∀ o' f', saved (read src s o f).2 o' f' = saved s o' f' ∨ s.isset o' f' = true ∧ s.holder o' f' = Option.none) ∧
     (read src (read src s o f).2 o f).1 = (read src s o f).1 := by
@@ -66,9 +68,13 @@ theorem C15_read_pure (src : Nat → Src) (s : St) (o f : Nat) :
         · obtain ⟨rfl, rfl⟩ := he; exact Or.inr ⟨hi, hh⟩
         · left
           simp only [hi, if_true, he, if_false]
-          cases s.holder o' f' with
+          cases hw : s.holder o' f' with
           | none => rfl
-          | some w => cases w <;> simp [view, hf.2.2]
+          | some w =>
+            cases w with
+            | none => simp [view]
+            | imm i => simp [view]
+            | cell c => simp [view, hf.2.2 c (Nat.ne_of_lt (hal _ _ _ hw))]
       · left
         have hi' : s.isset o' f' = false := by simpa using hi
         simp [hi']
@@ -126,7 +132,7 @@ theorem noAlias_step (src : Nat → Src) (hs : NoShared src) (s : St) (h : NoAli
             · cases b
             · exact h2 _ _ _ _ _ a b
       | shared c => exact absurd hsrc (hs f c)
-      | factory =>
+      | factory init =>
         refine ⟨?_, ?_, ?_⟩
         · intro o' f' c hc; simp only [St.setHolder] at hc; split at hc
           · cases hc; exact Nat.lt_succ_self _
@@ -140,7 +146,9 @@ theorem noAlias_step (src : Nat → Src) (hs : NoShared src) (s : St) (h : NoAli
           · split at b
             · cases b; exact absurd (h1 _ _ _ a) (Nat.lt_irrefl _)
             · exact h2 _ _ _ _ _ a b
-        · intro c hc; exact h3 c (Nat.le_of_succ_le hc)
+        · intro c hc
+          have hne : c ≠ s.next := by intro e; subst e; exact absurd hc (Nat.not_succ_le_self _)
+          simp only [St.setHolder, hne, if_false]; exact h3 c (Nat.le_of_succ_le hc)
   have hwrite : ∀ (s : St), NoAlias s → ∀ o f v, (∀ c, v = .cell c → c < s.next ∧ ∀ o' f', s.holder o' f' ≠ some (.cell c)) →
       NoAlias (write s o f v) := by
     intro s ⟨a1, a2, a3⟩ o f v hv
@@ -174,9 +182,11 @@ theorem noAlias_step (src : Nat → Src) (hs : NoShared src) (s : St) (h : NoAli
     | none' => exact hwrite s ⟨h1, h2, h3⟩ o f _ (by intro c hc; cases hc)
     | imm i => exact hwrite s ⟨h1, h2, h3⟩ o f _ (by intro c hc; cases hc)
     | shared c => exact absurd hsrc (hs f c)
-    | factory =>
+    | factory init =>
       apply hwrite
-      · exact ⟨fun o f c hc => Nat.lt_succ_of_lt (h1 o f c hc), h2, fun c hc => h3 c (Nat.le_of_succ_le hc)⟩
+      · refine ⟨fun o f c hc => Nat.lt_succ_of_lt (h1 o f c hc), h2, fun c hc => ?_⟩
+        have hne : c ≠ s.next := by intro e; subst e; exact absurd hc (Nat.not_succ_le_self _)
+        simp only [hne, if_false]; exact h3 c (Nat.le_of_succ_le hc)
       · intro c hc; cases hc
         exact ⟨Nat.lt_succ_self _, fun o' f' hh => absurd (h1 _ _ _ hh) (Nat.lt_irrefl _)⟩
   | mutateRead o f k =>
@@ -217,14 +227,18 @@ theorem C15_private (src : Nat → Src) (hs : NoShared src) (s : St) (h : NoAlia
   obtain ⟨h1, h2, h3⟩ := h
   simp only [step]
   -- reading (o1, f1) does not disturb the holder of (o2, f2)
-  have hkeep : (read src s o1 f1).2.holder o2 f2 = some v ∧ (read src s o1 f1).2.heap = s.heap := by
+  have hkeep : (read src s o1 f1).2.holder o2 f2 = some v ∧
+      (∀ c, c < s.next → (read src s o1 f1).2.heap c = s.heap c) := by
     unfold read
     cases hh : s.holder o1 f1 with
-    | some w => exact ⟨hv, rfl⟩
+    | some w => exact ⟨hv, fun _ _ => rfl⟩
     | none =>
       simp only
       have : ¬ (o2 = o1 ∧ f2 = f1) := fun e => hne ⟨e.1.symm, e.2.symm⟩
-      unfold dflt; split <;> simp [St.setHolder, this, hv]
+      refine ⟨by simp [St.setHolder, this, hv, (dflt_fields src s f1).1], ?_⟩
+      intro c hc
+      simp only [St.setHolder]
+      exact (dflt_fields src s f1).2.2 c (Nat.ne_of_lt hc)
   split
   · rename_i c hc
     refine ⟨by simpa [mutate] using hkeep.1, ?_⟩
@@ -232,7 +246,8 @@ theorem C15_private (src : Nat → Src) (hs : NoShared src) (s : St) (h : NoAlia
     | none => rfl
     | imm i => rfl
     | cell c2 =>
-      simp only [view, mutate, hkeep.2]
+      simp only [view, mutate]
+      have hc2 : c2 < s.next := h1 _ _ _ hv
       have hcne : c2 ≠ c := by
         intro e; subst e
         -- both (o1,f1) (after the read) and (o2,f2) would hold c2
@@ -249,8 +264,12 @@ theorem C15_private (src : Nat → Src) (hs : NoShared src) (s : St) (h : NoAlia
           · cases hc
           · rename_i c' hsrc; exact absurd hsrc (hs _ _)
           · cases hc; exact absurd (h1 _ _ _ hv) (Nat.lt_irrefl _)
-      simp [hcne]
-  · exact ⟨hkeep.1, by cases v <;> simp [view, hkeep.2]⟩
+      simp [hcne, hkeep.2 c2 hc2]
+  · refine ⟨hkeep.1, ?_⟩
+    cases v with
+    | none => rfl
+    | imm i => rfl
+    | cell c2 => simp [view, hkeep.2 c2 (h1 _ _ _ hv)]
 
 /-- … in particular after every history from the initial state. -/
 theorem C15_private_reachable (src : Nat → Src) (hs : NoShared src) (n : Nat) (ops : List Op)
@@ -263,7 +282,7 @@ theorem C15_private_reachable (src : Nat → Src) (hs : NoShared src) (n : Nat) 
 /-! ### Non-vacuity, and the excluded corner -/
 
 /-- feature 0: factory (map-typed attribute), feature 1: type default 0 -/
-def exSrc : Nat → Src := fun f => if f = 0 then .factory else .imm 0
+def exSrc : Nat → Src := fun f => if f = 0 then .factory [] else .imm 0
 
 example : NoShared exSrc := by intro f c; unfold exSrc; split <;> simp
 
